@@ -15,8 +15,9 @@ VARIABLES chain, arr,   \* the case
           cand,         \* integers: all 12 compress() candidates return Smallest(arr) exactly
           reps,         \* the memory representations under which the driver executes the case (RepsOf(arr));
                         \* the expected outcome / values are the same for all of them
+          kbrep,        \* recorded defects that depend on the representation: pairs <<rep, class>>
           repfree       \* the code-shaped first encoding step gives the same result under every representation
-vars == <<chain, arr, done, exp, impl, form, acc, kb, cand, reps, repfree>>
+vars == <<chain, arr, done, exp, impl, form, acc, kb, cand, reps, kbrep, repfree>>
 
 BA(t) == <<"BA", t>>
 BAb == <<"BA", None>>
@@ -28,6 +29,8 @@ IntVals(t) == {v \in (IF Rich THEN {TLo(t), TLo(t) + 1, -1, 0, 1, THi(t) - 1, TH
 IntArrays == UNION {{Arr(t, v) : v \in Seqs(IntVals(t), IntLen)} : t \in {1, 2, 4, 5}}
         \cup {Arr(3, v) : v \in Seqs(IF Rich THEN {-129, -1, 0, 1, 128, 300, 40000, -40000} ELSE {-129, 0, 1, 300, -40000}, IntLen)}
         \cup {Arr(t, v) : t \in {1, 4, 2}, v \in {<<1, 1, 1>>, <<0, 0, 5>>, <<5, 0, 0>>, <<1, 2, 3>>, <<3, 3, 1, 1>>}}
+        \* unsigned 32-bit values (also carried by uint64: "wide")
+        \cup {Arr(6, v) : v \in Seqs(IF Rich THEN {0, 1, 5, 300, 70000} ELSE {0, 5, 300, 70000}, IntLen)}
 \* isolated 32-bit boundary values (no arithmetic on them)
 BoundaryArrays == {Arr(3, <<MinInt32>>), Arr(3, <<MaxInt32, MinInt32>>), Arr(6, <<MaxInt32>>), Arr(6, <<0, 65536>>)}
 IntChains ==
@@ -80,7 +83,7 @@ AcceptSpec(le, t, x) ==
 
 Init == /\ \E c \in Cases : chain = c[1] /\ arr = c[2]
         /\ done = FALSE /\ exp = "todo" /\ impl = DRej /\ form = Rej(<<>>) /\ acc = <<>> /\ kb = {} /\ cand = TRUE
-        /\ reps = {} /\ repfree = TRUE
+        /\ reps = {} /\ kbrep = {} /\ repfree = TRUE
 Compute ==
   /\ ~done /\ done' = TRUE
   /\ exp' = IdealOutcome(chain, arr)
@@ -90,7 +93,8 @@ Compute ==
   /\ kb' = KB_Data(chain, arr)
   /\ cand' = (arr.t \in IntTypes /\ arr.v # <<>> /\ Dom_NoWrap32(arr) =>
                  \A c \in Candidates : LET r == ImplRoundTrip(c, Smallest(arr)) IN r.oc = "ok" /\ r.a.v = arr.v)
-  /\ reps' = RepsOf(arr)
+  /\ reps' = {r \in RepsOf(arr) : Dom_RepSafe(chain, arr, r)}
+  /\ kbrep' = UNION {{<<r, k>> : k \in KB_Rep(chain, arr, r)} : r \in RepsOf(arr)}
   /\ repfree' = RepFree(chain, arr)
   /\ UNCHANGED <<chain, arr>>
 Next == Compute
@@ -111,9 +115,11 @@ InvAcceptSpec == (done /\ impl.oc = "ok" /\ arr.t \in FloatTypes) =>
 InvCandidates == cand
 \* byte order, strides, write protection, alignment and the 64-bit carrier of the input array do not matter
 InvRepFree == done => (repfree /\ "native" \in reps)
+\* the representation-dependent class is one the representation can hold: the values are silently altered
+InvKnownRepTight == (done /\ kbrep # {}) => (exp = "ok" /\ impl.oc = "ok")
 \* ... and the model would notice: bytes written in the order of a big-endian array are not what ByteArray declares
 ASSUME LET bad == R("ok", Arr(BytesT, <<255, 254>>), <<"BA", Some(2)>>) IN
-         /\ EncBA(BAb, Arr(2, <<-2>>)).a.v = <<254, 255>> /\ DecBA(bad.e[1], bad.a).a.v = <<-257>>
+         /\ EncBA(BAb, Arr(2, <<-2>>)).a.v = <<254, 255>> /\ DecBA(bad.e, bad.a).a.v = <<-257>>
          /\ SafeCastOrder(2, "swapped", 2) = "<" /\ SafeCastOrder(3, "wide", 3) = "<" /\ SafeCastOrder(1, "swapped", 1) = "|"
          /\ DtypeOf(2, "swapped") # TargetDtype(2) /\ DtypeOf(2, "strided") = TargetDtype(2) /\ DtypeOf(3, "list") = <<67, "<">>
 \* integer packing: the two loops of the code are "bound as often as it fits, then the rest"
